@@ -162,6 +162,105 @@ def run_gather(c, tier):
 
 
 # ---------------------------------------------------------------------------
+# part 2b: every resolved entry of the statement tables requests the helpers its code calls
+REQ_CHILD = r'''
+import json, sys, os, re
+sys.path.insert(0, os.environ["VERIF_REPO"])
+from shroud import statements, whelpers, wrapp, util, ast, declast
+# helper tables need a library (format fields of their names)
+from shroud import main as shmain
+lib = ast.LibraryNode(library="req")
+whelpers.set_library(lib)
+whelpers.add_all_helpers()
+out = []
+LISTF = ["pre_call", "call", "post_call", "final", "ret", "declare", "post_parse", "cleanup", "fail", "arg_call",
+         "c_arg_decl", "f_arg_decl", "arg_decl", "arg_c_call", "post_declare"]
+def deps_table(tbl):
+    return {k: list(v.get("dependent_helpers", [])) for k, v in tbl.items()}
+def funcs_of(tbl):
+    """function identifier -> helper keys whose source defines it"""
+    m = {}
+    for k, v in tbl.items():
+        for fld in ("source", "c_source", "cxx_source", "interface"):
+            src = v.get(fld)
+            if not src: continue
+            for mm in re.finditer(r"^(?:static |extern )?[A-Za-z_][\w \*]*?\b(\w*Shroud\w+)\s*\(", src, re.M):
+                m.setdefault(mm.group(1), set()).add(k)
+    return m
+for language in ("c", "c++"):
+    statements.update_statements_for_language(language)
+    cdefs = funcs_of(whelpers.CHelpers)
+    def walk(tree, acc):
+        for k, v in tree.items():
+            if k == "_stmts": acc.append(v)
+            elif isinstance(v, dict) and not k.startswith("_"): walk(v, acc)
+    acc = []
+    walk(statements.cf_tree, acc)
+    for sc in acc:
+        uses, nfunc = set(), 0
+        for f in LISTF:
+            v = sc.get(f, None)
+            for x in (v if isinstance(v, list) else [v]):
+                if isinstance(x, str):
+                    for mm in re.finditer(r"\b(Shroud\w+)\s*\(", x):
+                        uses.add(mm.group(1))
+                    for mm in re.finditer(r"\{hnamefunc(\d)\}", x):
+                        nfunc = max(nfunc, int(mm.group(1)) + 1)
+        ch = (sc.get("c_helper", "") or "").split()
+        fh = (sc.get("f_helper", "") or "").split()
+        lang = sc.name.split("_")[0]
+        unknown = [u for u in uses if u not in cdefs]
+        out.append({"kind": "requests", "name": language + ":" + sc.name,
+                    "uses": sorted({k for u in uses for k in cdefs.get(u, [])} if all(len(cdefs.get(u, [])) == 1 for u in uses)
+                                   else {u for u in uses}),
+                    "requests": ch, "nfunc": nfunc, "nfhelpers": len(fh) if lang == "f" else max(len(fh), nfunc),
+                    "unknown": unknown})
+json.dump({"traces": out, "cdeps": deps_table(whelpers.CHelpers)}, open(sys.argv[1], "w"))
+'''
+
+
+def run_requests(c, tier):
+    import subprocess
+    with common.scratch("c05r-") as d:
+        prog, outp = os.path.join(d, "child.py"), os.path.join(d, "out.json")
+        open(prog, "w").write(REQ_CHILD)
+        p = subprocess.run([common.PY, prog, outp], env=dict(os.environ, VERIF_REPO=common.REPO, PYTHONDONTWRITEBYTECODE="1"),
+                           stdout=subprocess.PIPE, stderr=subprocess.STDOUT, text=True)
+        if p.returncode != 0:
+            raise MachineryError("requests child failed: " + p.stdout[-2000:])
+        res = json.load(open(outp))
+    deps = res["cdeps"]
+    traces = []
+    for t in res["traces"]:
+        if t["unknown"]:
+            raise MachineryError("statement %s calls %s, which no helper defines (reader of helper sources incomplete)" % (t["name"], t["unknown"]))
+        # every name that can be reached must be a key of deps
+        for k in t["uses"] + t["requests"]:
+            deps.setdefault(k, [])
+        traces.append(t)
+    for t in traces:
+        t["deps"] = {k: deps[k] for k in deps}
+    interesting = [t for t in traces if t["uses"] or t["nfunc"]]
+    ctl = []
+    for t in interesting:
+        if t["uses"] and len(ctl) < 3:
+            b = json.loads(json.dumps(t))
+            b["requests"] = []
+            ctl.append(b)
+    v, st = validate_traces("Trace_EmitOrder", "Trace_EmitOrder", interesting + ctl)
+    c.add_stats(st, "Trace_EmitOrder/requests", len(interesting))
+    for (verdict, detail), t in zip(v[:len(interesting)], interesting):
+        c.count()
+        if verdict != "ACCEPT":
+            c.violation("requests:%s" % t["name"].split(":", 1)[1], "statement %s: %s" % (t["name"], detail), {"statement": t["name"], "detail": detail,
+                                                                                            "uses": t["uses"], "requests": t["requests"]})
+    for verdict, detail in v[len(interesting):]:
+        if verdict != "REJECT":
+            raise MachineryError("negative control (requests emptied) accepted")
+    c.part("helper_requests", resolved_entries=len(traces), entries_calling_helpers=len(interesting), controls=len(ctl))
+
+
+# ---------------------------------------------------------------------------
 # part 3: descriptions from LibGen
 def classify(lib, stage, fn, txt):
     """A stable key for a diagnostic (used for known findings)."""
@@ -220,6 +319,11 @@ def explore(c, tier):
     uniq.append(libgen.wide_library(sets["PyRows"], wrap_python=True, wrap_fortran=False, wrap_c=False))
     uniq.append(libgen.wide_library(sets["LuaRows"], wrap_lua=True, wrap_fortran=False))
     uniq.append(libgen.wide_library(F_CFI=True))
+    # declarations the documentation itself shows (docs/cwrapper.rst: vector_string_fill)
+    doc = libgen.wide_library()
+    doc["funcs"] = [{"kind": "plain", "result": "void", "params": ["vecstr_out"], "ndef": 0}]
+    doc["class"] = False
+    uniq.append(doc)
     # one library per row with nothing else in it (a forgotten helper / include request is not masked)
     uniq += libgen.solo_libraries()
     if tier == "thorough":
@@ -336,6 +440,7 @@ def main():
         if bad:
             c.violation("model:" + bad, "EmitOrder invariant %s violated" % bad, {"tlc": r.out[-3000:]})
         run_gather(c, tier)
+        run_requests(c, tier)
         explore(c, tier)
         sys.path.insert(0, os.path.dirname(os.path.abspath(__file__)))
         import c05_corpus
